@@ -329,6 +329,16 @@ def run_property(pid, tier, seed, root):
                 f = Failure(pid, 'pins', '', b['oracle'], 'documented-text-or-value', None,
                             f"concrete execution on the real code: {json.dumps(b)[:600]}", [('cex', {'oracle': b['oracle'], 'args': b.get('args')})])
                 failures.append(f)
+    # ---- bounded stand-ins for functions outside the verifier's reach (labelled bounded, never counted)
+    if replay_mod is not None and cfg.get('bounded_standins'):
+        for row in replay_mod.run_bounded(pid, cfg['bounded_standins'], root):
+            if row.get('error'):
+                undecided.append(f'bounded stand-in {row["oracle"]}: {row["error"]}')
+                continue
+            bounded.append({'harness': 'native:' + row['oracle'], 'bound': row['bound'], 'result': row['result'], 'checks': row['cases'], 'function': row['function']})
+            if row.get('counterexample'):
+                failures.append(Failure(pid, 'bounded-stand-in', 'bounded', row['function'], row['oracle'].split('::')[-1], None,
+                                        'bounded stand-in (not a proof): ' + json.dumps(row['counterexample'])[:700], [('cex', row['counterexample'])]))
     if failures:
         # group by obligation
         seen = {}
